@@ -176,6 +176,39 @@ pub fn exec(it: &mut Interp, toks: &[&str], out: &mut Vec<String>) -> bool {
             let v2: Vec<u32> = o.hpos().map(|t| t.id().as_u32()).collect();
             let v3: Vec<u32> = o.into_iter().map(|t| t.id().as_u32()).collect();
             let uniq: BTreeSet<u32> = v.iter().copied().collect();
+            // the iterator's own bookkeeping: count / size_hint of a fresh, a partly consumed and an
+            // exhausted iterator, skip / step_by adaptors
+            {
+                let n = v.len();
+                let mut bad: Vec<String> = vec![];
+                if o.iter().count() != n || o.hpos().count() != n {
+                    bad.push("count of a fresh iterator".to_string());
+                }
+                for k in [1usize, 2, n / 2, n] {
+                    let mut it = o.iter();
+                    for _ in 0..k.min(n) {
+                        it.next();
+                    }
+                    let (lo, hi) = it.size_hint();
+                    let rest = n - k.min(n);
+                    if lo > rest || hi.map_or(false, |h| h < rest) {
+                        bad.push(format!("size_hint after {k} items"));
+                    }
+                    if it.count() != rest {
+                        bad.push(format!("count after {k} items"));
+                    }
+                    if o.iter().skip(k).count() != n.saturating_sub(k) {
+                        bad.push(format!("skip({k}).count()"));
+                    }
+                }
+                let last: Option<u32> = o.iter().last().map(|t| t.id().as_u32());
+                if last != v.last().copied() {
+                    bad.push("last()".to_string());
+                }
+                if let Some(e) = bad.first() {
+                    out.push(format!("oracle FAIL iter: {e} disagrees with the items yielded ({} problems)", bad.len()));
+                }
+            }
             out.push(format!(
                 "iter len={} n={} distinct={} agree={} empty={} {}",
                 o.len(),
